@@ -272,6 +272,10 @@ def run(chk, prog):
     # ---- R9: a kick or drift by the offset f displaces the charge by f: zeroth and first moment of the interpolation weights -------------------------
     # (sum_k w_k = 1 and sum_k w_k*node_k = f for every order, nodes as updateSM places them: decided under C02 R1; re-evaluated here)
     reeval(chk, prog, "C02", lambda i: i["rule"] == "R1" and ("moment 0" in i["what"] or "moment 1" in i["what"]), "R9", "R9-displacement-by-the-offset", 6)
+    # ---- R10: when the run starts from a results file the grid's scales still are the ones main computed -----------------------------------------
+    # (the sinusoidal kick reads the scales of the grid it is given: the factory hands bunch length and energy spread to the reader's
+    # parameters of those roles - decided under C11 R4; re-evaluated here)
+    reeval(chk, prog, "C11", lambda i: i["rule"] == "R4" and "parameters of those roles" in i["what"], "R10", "R10-scales-of-a-loaded-grid", 1)
     chk.notes.append("C03: linearised one-step kick-drift map read off the folded offset formulas: slopes, coupling product -a^2+O(a^4), sense, "
                      "single angle variable, equal cell sizes, centres at the zero bins. NOT decided: closure over a period, splitting-error size, "
                      "sinusoidal RF beyond the sign of its slope, DynamicRFKickMap (C19).")
